@@ -30,6 +30,11 @@ from props import netcommon as nc
 TOL = Fraction(1, 10**9)
 
 
+def alt(x, y):
+    """the altitude given to every vertex and node at (x, y): the returned geometry must carry it along"""
+    return 100 + 3 * x - 2 * y
+
+
 def cutval(tokn, fl=False):
     """cut-off token -> exact number (float cases: the token is the repr of the float handed to tracklib)"""
     if tokn == "none":
@@ -183,8 +188,8 @@ def build_net(mods, case):
     nid = (lambda v: chr(65 + v)) if strids else (lambda v: v)
     eid = (lambda i: "e%d" % i) if strids else (lambda i: i)
     pos = case["pos"]
-    mk = lambda v: Node(nid(v), ENUCoords(pos[v][0], pos[v][1], 0))
-    mkc = lambda v, x, y: Node(nid(v), ENUCoords(x, y, 0))
+    mk = lambda v: Node(nid(v), ENUCoords(pos[v][0], pos[v][1], alt(pos[v][0], pos[v][1])))
+    mkc = lambda v, x, y: Node(nid(v), ENUCoords(x, y, alt(x, y)))
     calls = build_calls(case)
     if build == "reader":
         from tracklib.io import NetworkReader, NetworkFormat
@@ -195,7 +200,7 @@ def build_net(mods, case):
             with open(path, "w") as fh:
                 fh.write("edge;source;target;wkt;weight;direction\n")
                 for k, (i, s, t, w, o) in enumerate(nc.expand(case)):
-                    fh.write("%s;%s;%s;LINESTRING(%s);%r;%d\n" % (eid(i), nid(s), nid(t), ", ".join("%r %r" % (float(x), float(y)) for x, y in case["lines"][k]),
+                    fh.write("%s;%s;%s;LINESTRING(%s);%r;%d\n" % (eid(i), nid(s), nid(t), ", ".join("%r %r %r" % (float(x), float(y), float(alt(x, y))) for x, y in case["lines"][k]),
                                                                float(nc.pynum(w)), o))
             net = NetworkReader.readFromFile(path, fmt, verbose=False)
         for (v, x, y) in calls["post"]:
@@ -207,7 +212,7 @@ def build_net(mods, case):
         nodes[v] = mkc(v, x, y)
         net.addNode(nodes[v])
     for k, (i, s, t, w, o) in enumerate(nc.expand(case)):
-        tr = Track([Obs(ENUCoords(x, y, 0), ObsTime()) for (x, y) in case["lines"][k]])
+        tr = Track([Obs(ENUCoords(x, y, alt(x, y)), ObsTime()) for (x, y) in case["lines"][k]])
         if case.get("af") and len(case["lines"][k]) > 0:
             tr.createAnalyticalFeature("speed", 1.0)
         e = Edge(eid(i), tr)
@@ -642,7 +647,7 @@ class P(Prop):
             "different weight) with node positions on an integer lattice (some coincident) and edge polylines of 1-5 vertices from the source's to the target's position (straight, bent, repeated "
             "consecutive vertices, coming back over an end point, over another node, closed loops); a 'loose' stream whose polylines ignore the node positions (0-4 vertices; geometry compared "
             "with the model only). Networks built with int or str ids (NODES order, stored positions, NEXT_EDGES and edge ends compared with the model's addNode/addEdge), with the caller's Node objects / fresh Node objects per edge / nodes created by addEdge / Node objects of an already registered id carrying other coordinates / through a CSV file read by NetworkReader.readFromFile (str ids, abs_curv feature on every geometry); edge geometries "
-            "with or without an analytical feature; in a third of the random cases the caller moves the points of every track it is given (aliasing with the network would show in later answers). Calls: every ordered pair by shortest_path on ONE object; for the same enumerated graphs a sequence in which every ordered pair "
+            "with or without an analytical feature; every node and polyline vertex has an altitude determined by its (x, y), which the returned geometry must carry; in a third of the random cases the caller moves the points of every track it is given (aliasing with the network would show in later answers). Calls: every ordered pair by shortest_path on ONE object; for the same enumerated graphs a sequence in which every ordered pair "
             "of queries is consecutive; random sessions mixing shortest_path, shortest_distance (pair / list), run_routing_forward, run_routing_backward (several targets after one search, before "
             "any search), nodes by id / own object / fresh object, output_dict, source = target, unreachable after reachable, cut-offs below / at / above the distances. A float stream (kind sess-float): weights = polyline lengths / multiples of 0.1 / uniform reals, model instantiated at Float and compared bit for bit, "
             "oracle in exact rationals with 1e-9 relative tolerance. "
@@ -884,7 +889,8 @@ class P(Prop):
                 break
             used.append(einv.get(node.antecedent_edge, repr(node.antecedent_edge)))
             node = node.antecedent
-        res = {"p": {"path": path, "xy": xy, "edges": used[::-1], "af": list(trk.getListAnalyticalFeatures())}, "label": label}
+        res = {"p": {"path": path, "xy": xy, "edges": used[::-1], "af": list(trk.getListAnalyticalFeatures()),
+                     "z": [nc.tok(Fraction(o.position.getZ())) for o in trk]}, "label": label}
         if case.get("scribble"):
             # what a caller may do with a track it was given: move its points, empty its node list. If the track shared
             # objects with the network (edge geometries, node coordinates) the later answers of the session show it.
@@ -994,10 +1000,10 @@ class P(Prop):
         Network, Node, Edge, Track, Obs, ENUCoords, ObsTime = self.mods
         kind = op[0]
         inplace_ok = case.get("build") != "reader"     # NetworkReader's nodes SHARE their coordinate object with an edge geometry
-        mkc = lambda v, x, y: Node(nid(v), ENUCoords(x, y, 0))
+        mkc = lambda v, x, y: Node(nid(v), ENUCoords(x, y, alt(x, y)))
 
         def track(line):
-            tr = Track([Obs(ENUCoords(x, y, 0), ObsTime()) for (x, y) in line])
+            tr = Track([Obs(ENUCoords(x, y, alt(x, y)), ObsTime()) for (x, y) in line])
             if case.get("af") and len(line) > 0:
                 tr.createAnalyticalFeature("speed", 1.0)
             return tr
@@ -1030,6 +1036,7 @@ class P(Prop):
                     for o, (x, y) in zip(e.geom, op[2]):
                         o.position.setX(x)
                         o.position.setY(y)
+                        o.position.setZ(alt(x, y))
                 else:
                     e.geom = track(op[2])
             elif kind == "C":
@@ -1037,8 +1044,9 @@ class P(Prop):
                 if op[4] == 1 and inplace_ok:
                     nd.coord.setX(op[2])
                     nd.coord.setY(op[3])
+                    nd.coord.setZ(alt(op[2], op[3]))
                 else:
-                    nd.coord = ENUCoords(op[2], op[3], 0)
+                    nd.coord = ENUCoords(op[2], op[3], alt(op[2], op[3]))
         except (KeyError, ValueError):
             return "key"
         return "ok"
@@ -1318,6 +1326,9 @@ class P(Prop):
         path, used = x["path"], x["edges"]
         if not path or path[0] != s or path[-1] != t:
             return "path %s does not go from %d to %d" % (path, s, t), None
+        for (px, py), z in zip(x["xy"], x.get("z", [])):
+            if Fraction(z) != alt(Fraction(px), Fraction(py)):
+                return "the vertex (%s, %s) of the returned geometry has altitude %s, every vertex and node there was given %s" % (px, py, z, nc.tok(alt(Fraction(px), Fraction(py)))), None
         if len(used) != len(path) - 1:
             return "path %s has %d recorded edges" % (path, len(used)), None
         total = 0
